@@ -18,7 +18,8 @@ FLOOR_BASE = {"quick": 300, "thorough": 10000}    # case counts the floors below
 def FLOORS(tier):
     q = tier == "quick"
     f = {"result-contract-checks": 2500 if q else 10 ** 5, "empty-or-constant-model": 60, "matrix-with-gaps": 100,
-         "with-initial_state": 600, "num_anneals<=0": 300, "hook-dE-checks": 10 ** 5, "schedule:one-shot-iterator": 30}
+         "with-initial_state": 600, "num_anneals<=0": 300, "hook-dE-checks": 10 ** 5, "schedule:one-shot-iterator": 30, "second-anneal-after-in-place-edit": 150,
+         "second-anneal:cancel": 20, "second-anneal:set0": 20}
     for fn in A.FUNCS:
         for t in A.ACCEPT[fn]:
             f["cell:%s:%s" % (fn, t)] = 25 if q else 1000
@@ -59,6 +60,28 @@ def case(ctx, rng, idx):
         if c[1] or c[2]:
             ctx.violation("kernel-hook:" + ("dE-mismatch" if c[1] else "index-out-of-bounds"),
                           "H2 hook reported mismatches=%d bounds=%d" % (c[1], c[2]), w)
+            return
+    # second look: the same model object is edited in place (zero-sets included) and annealed again
+    m = cfg["model"]
+    if cfg["type"] != "dict" and len(m) and "initial_state" not in callkw and "_schedule_values" not in cfg["kw"] and rng.random() < 0.3:
+        edit = rng.choice(["cancel", "set0", "scale", "add"])
+        ks = [k for k in m if k]
+        try:
+            if edit == "cancel" and ks:
+                k = rng.choice(ks)
+                m[k] -= m[k]
+            elif edit == "set0" and ks:
+                m[rng.choice(ks)] = 0
+            elif edit == "scale":
+                m *= 2
+            elif ks:
+                m[rng.choice(ks)] += 4
+        except KeyError:
+            return
+        ctx.cat("second-anneal-after-in-place-edit")
+        ctx.cat("second-anneal:" + edit)
+        ok, res2 = ctx.call(cfg["fn"], fn, m, _w=dict(w, edit=edit, terms_now=dict(m)), **callkw)
+        if not ok or not A.check_results_lenient(ctx, cfg, m, res2, tag="second-anneal:"):
             return
     if len(cfg["true_vars"]) >= 2 and len(cfg["terms"]) >= 2 and cfg["kw"]["num_anneals"] >= 1:
         ctx.nontrivial((cfg["fn"], cfg["type"], sorted(cfg["terms"].items(), key=repr), sorted(cfg["kw"].items(), key=repr)))
